@@ -347,7 +347,7 @@ def check_combine_pure(vtree: ast.Module) -> None:
 def translate() -> tuple[str, dict]:
     itree = ast.parse(src_text('instancing.py'))
     vtree = ast.parse(src_text('vmf.py'))
-    classes = {n: ClassInfo(_find_class(vtree, n)) for n in VMF_CLASSES}
+    classes = {n: ClassInfo(_find_class(vtree, n), module=vtree) for n in VMF_CLASSES}
     fns = [n for n in itree.body if isinstance(n, ast.FunctionDef) and n.name == 'collapse_one'
            and not any(ast.unparse(d).startswith(('overload', 'deprecated')) for d in n.decorator_list)]
     if len(fns) != 1:
